@@ -7,7 +7,7 @@ from vlib.runner import Violation, call
 PID = "C05"
 RULE = ("Hypothesis-generated (distribution with 1..6 keys over 1..4 topologies, dense or sparse key sets, weights "
         "normalised or raw ints/floats; motif sizes 1..5; N in 1..60; RNG seed) sampled through JointDegreeManual."
-        "sample_jds_from_jdd; plus seeded chi-square tests of the key frequencies on N=20000 draws. Non-trivial = at "
+        "sample_jds_from_jdd; plus seeded chi-square tests of the key frequencies on N=20000 draws. Plus one sample of 2**20+3 vertices. Non-trivial = at "
         "least one column of the raw draw was not divisible by its motif size (a perturbation was required); "
         "distinct = distinct canonical JSON")
 ASSUMPTIONS = ["the raw weighted draw is observed passively through random.choices when the implementation uses it "
@@ -144,8 +144,10 @@ def check(case):
             ld.empirical_jds = seq
             call("create_jdd", ld.create_jdd)
             new = {k: w / len(seq) for k, w in new.items()}
-        if {k: float(v) for k, v in ld.jdd.items()} != {k: float(v) for k, v in new.items()}:
-            raise RuntimeError("harness: distribution replacement did not take effect")
+        got_d = {tuple(k): float(v) for k, v in ld.jdd.items()}
+        if set(got_d) != set(new) or any(abs(got_d[k] - float(new[k])) > 1e-9 * max(1.0, abs(float(new[k]))) for k in new):
+            raise Violation("distribution-replacement", f"after replacing the distribution through '{route}' the loader holds "
+                                                        f"{got_d}, expected {new}")
         info2 = verify(ld, new, sizes, th["N"], case["seed"] + 1, tag="after-replacing-distribution:")
         info["classes"] = sorted(set(info["classes"]) | {"history_" + route})
         info["nontrivial"] = info["nontrivial"] or info2["nontrivial"]
@@ -195,7 +197,12 @@ def verify(ld, jdd, sizes, N, seed, stat=False, case=None, tag="", flags=None):
             raise Violation(tag + "handshake", f"column sums {cols} not divisible by motif sizes {sizes}")
     classes = set()
     raw = None
-    big = [c for c in calls if c["k"] == N and [tuple(int(y) for y in x) for x in c["population"]] == keys]
+    def as_keys(pop):
+        try:
+            return [tuple(int(y) for y in x) for x in pop]
+        except TypeError:
+            return None  # some other use of random.choices (e.g. choosing vertices)
+    big = [c for c in calls if c["k"] == N and as_keys(c["population"]) == keys]
     if len(big) == 1 and len(calls) == 1:
         raw = [tuple(int(y) for y in x) for x in big[0]["result"]]
         classes.add("spied_raw_draw")
